@@ -208,7 +208,7 @@ def run(chk):
     chk.build_and_prove()
     t_build = time.time() - t_b0
     quick = chk.tier == "quick"
-    t_budget = (30 if quick else 420) * (3 if chk.broken and quick else 1)
+    t_budget = (40 if quick else 420) * (3 if chk.broken and quick else 1)
     t_start = time.time()
     diffs = A.structure_check()
     if diffs:
